@@ -23,6 +23,7 @@
 //
 // usage: parsers --tier quick|thorough --seed N [--workers N] [--depth N] [--only <parser substring>] [--docs <id substring>]
 //                [--per-doc K] [--no-mutations] [--no-probes] [--list] [--show-not-admitted]
+//        parsers --shrink-key <key> --shrink-parser <exact parser name> --shrink-xml <file>     (minimize a failing document)
 #include "c02_common.h"
 #include "codec_table.h"
 #include "xmlcanon.h"
@@ -48,7 +49,7 @@ enum {
     C_MAX_CALL_MS = 0, C_MAX_DEPTH_OK = 1,
     C_ITEMS = 8, C_ADMIT_CALLS, C_ADMITTED, C_ADMITTED_TYPED, C_RUNS, C_OUT_CHECKED, C_BYTES_IN, C_BYTES_OUT, C_EMPTY_OUT, C_PARSEONLY_RUNS,
     C_FIX_ORDER_ONLY, C_OWN_ORDER_ONLY, C_OWN_NOT_ADMITTED, C_MUT_NOT_WF, C_MUT_NOT_APPLICABLE, C_PASS, C_FAIL, C_NSDECL_ONLY, C_XCHECK,
-    C_DEFAULT_NOT_ADMITTED, C_PROBE_ITEMS,
+    C_DEFAULT_NOT_ADMITTED, C_PROBE_ITEMS, C_PASSTHROUGH_ALTERS_NONOWN,
     C_KIND0 = 40,      // + mutation kind (M_KINDS <= 28); C_KIND0-1 = unmutated
     C_KINDCPU0 = 70,   // + mutation kind: CPU milliseconds spent on items of that kind
     C_PARSER0 = 100,   // + parser index: admitted pairs per parser
@@ -76,6 +77,7 @@ struct Cfg {
     bool showNotAdmitted = false;
     int cpuBudget = 20;
     std::string singleProbe;
+    std::string shrinkKey, shrinkParser, shrinkFile;
 };
 
 // ------------------------------------------------------------------------------------------------ probe templates
@@ -115,6 +117,15 @@ static const std::vector<Tpl> &templates()
     return t;
 }
 
+// Key family of a parser: the template instances PubSubIq<Item> / QXmppPubSubEvent<Item> and the SCE modes of QXmppMessage share
+// one key (the replay names the exact instance), otherwise one defect would need a dozen registrations.
+static std::string fam(const std::string &name)
+{
+    std::string f = name;
+    auto lt = f.find('<'); if (lt != std::string::npos) f = f.substr(0, lt);
+    auto sl = f.find("/Sce"); if (sl != std::string::npos) f = f.substr(0, sl);
+    return f;
+}
 static bool isHeavyKind(int k) { return k == M_ATTR_LONG || k == M_TEXT_LONG || k == M_WIDE || k == M_DEEP; }
 
 static std::vector<vt::Codec> g_table;
@@ -124,6 +135,29 @@ static std::vector<Node> g_tplNodes;
 static size_t g_nRegress = 0, g_nTop = 0;
 static Cfg g_cfg;
 
+// full failing inputs go to .build/harness/parsers.fail/ (for tools/c02_triage.py: shrink + add to corpus/c02_regress.txt)
+static std::string g_failDir;
+static std::string sanitize(const std::string &x)
+{
+    std::string o;
+    for (char c : x) o += (isalnum((unsigned char)c) || c == '-' || c == '.') ? c : '_';
+    return o;
+}
+static void dumpFailingInput(const std::string &key, const std::string &parser, const std::string &what, const QByteArray &in)
+{
+    static std::map<std::string, int> perKey;
+    if (g_failDir.empty() || in.isEmpty() || in.size() > (1 << 20) || ++perKey[key] > 2) return;
+    H128 h; h.mixStr(QString::fromStdString(what)); h.mixStr(QString::fromUtf8(in));
+    char hx[20]; snprintf(hx, sizeof hx, "%08llx", (unsigned long long)(h.a & 0xffffffffull));
+    std::string path = g_failDir + "/" + sanitize(key) + "__" + sanitize(parser) + "__" + hx + ".xml";
+    if (FILE *f = fopen(path.c_str(), "w")) {
+        fprintf(f, "<!-- key=%s parser=%s input=%s -->\n", key.c_str(), parser.c_str(), what.c_str());
+        fwrite(in.constData(), 1, in.size(), f);
+        fputc('\n', f);
+        fclose(f);
+    }
+}
+
 static void failLine(const std::string &key, const std::string &parser, const std::string &docId, const std::string &mut, const QByteArray &in,
                      const QByteArray &o1, const QByteArray &o2, const QByteArray &o3, const std::string &note)
 {
@@ -132,6 +166,7 @@ static void failLine(const std::string &key, const std::string &parser, const st
     if (!o3.isEmpty()) rep += " o3=" + escLine(o3, 900);
     printf("O FAIL %s\t%s\n", key.c_str(), rep.c_str());
     fflush(stdout);
+    dumpFailingInput(key, parser, docId + "|" + mut, in);
 }
 
 // bytes requested from the allocator (process-wide, Qt included) -- a deterministic cost measure, unlike time
@@ -190,6 +225,9 @@ static void explore(const QByteArray &in, const std::string &docId, const std::s
         return;
     }
     st->counters[C_ITEMS]++;
+    // a regress document whose id ends in "@<family>" is a replay for that parser family only
+    std::string onlyFamily;
+    if (auto at = docId.rfind('@'); at != std::string::npos && docId.rfind("r-", 0) == 0) onlyFamily = docId.substr(at + 1);
     QDomElement root = inDoc.documentElement();
     Summary sin = summarizeElement(root);
     const QString ctxNs = root.namespaceURI();
@@ -199,6 +237,7 @@ static void explore(const QByteArray &in, const std::string &docId, const std::s
         if (onlyParser >= 0 && int(p) != onlyParser) continue;
         const vt::Codec &c = g_table[p];
         if (!g_cfg.only.empty() && c.name.find(g_cfg.only) == std::string::npos) continue;
+        if (!onlyFamily.empty() && fam(c.name) != onlyFamily) continue;
         st->parser = int(p);
         st->phase = PH_ADMIT;
         st->counters[C_ADMIT_CALLS]++;
@@ -235,10 +274,17 @@ static void explore(const QByteArray &in, const std::string &docId, const std::s
         QByteArray o2, o3;
         Summary s2, s3;
         if (!s1.wellFormed) {
-            failLine("C02:output-not-wellformed:" + c.name, c.name, docId, mutDesc, in, o1, {}, {}, "o1");
+            failLine("C02:output-not-wellformed:" + fam(c.name), c.name, docId, mutDesc, in, o1, {}, {}, "o1");
             failed = true;
         } else {
-            if (s1.canaries > sin.canaries) { failLine("C01:markup-injection:" + c.name, c.name, docId, mutDesc, in, o1, {}, {}, "canary element in o1"); failed = true; }
+            if (s1.canaries > sin.canaries) { failLine("C01:markup-injection:" + fam(c.name), c.name, docId, mutDesc, in, o1, {}, {}, "canary element in o1"); failed = true; }
+            if (c.identity && !isMutant && s1.ordered != sin.ordered) {
+                // QXmppElement is the container every stanza uses to carry elements it does not know: a document in the library's
+                // own output form must come out of it unchanged. Inputs with features that form never has (empty attribute values,
+                // mixed content, xmlns="" undeclarations, foreign prefixes) are only counted.
+                if (sin.emptyAttrs || sin.mixed || sin.nsUndeclared || sin.prefixed) st->counters[C_PASSTHROUGH_ALTERS_NONOWN]++;
+                else { failLine("C01:passthrough-alters:" + fam(c.name), c.name, docId, mutDesc, in, o1, {}, {}, s1.sorted == sin.sorted ? "sibling order only" : ""); failed = true; }
+            }
             if (c.typeChecked) {
                 st->phase = PH_ADMIT;
                 bool again = timed(st, [&] { return c.admits(r1); });
@@ -257,16 +303,16 @@ static void explore(const QByteArray &in, const std::string &docId, const std::s
             disarm();
             st->counters[C_OUT_CHECKED]++;
             if (o2.isEmpty()) {
-                failLine("C01:own-form-roundtrip:" + c.name, c.name, docId, mutDesc, in, o1, o2, {}, "own output parsed to an object that serializes to nothing (rejected by the parser)");
+                failLine("C01:own-form-roundtrip:" + fam(c.name), c.name, docId, mutDesc, in, o1, o2, {}, "own output parsed to an object that serializes to nothing (rejected by the parser)");
                 failed = true;
             } else if (!s2.wellFormed) {
-                failLine("C02:output-not-wellformed:" + c.name, c.name, docId, mutDesc, in, o1, o2, {}, "o2");
+                failLine("C02:output-not-wellformed:" + fam(c.name), c.name, docId, mutDesc, in, o1, o2, {}, "o2");
                 failed = true;
             } else {
-                if (s2.canaries > sin.canaries && !failed) { failLine("C01:markup-injection:" + c.name, c.name, docId, mutDesc, in, o1, o2, {}, "canary element in o2"); failed = true; }
+                if (s2.canaries > sin.canaries && !failed) { failLine("C01:markup-injection:" + fam(c.name), c.name, docId, mutDesc, in, o1, o2, {}, "canary element in o2"); failed = true; }
                 if (s1.ordered != s2.ordered) {
                     if (s1.sorted == s2.sorted) st->counters[C_OWN_ORDER_ONLY]++;
-                    else { failLine("C01:own-form-roundtrip:" + c.name, c.name, docId, mutDesc, in, o1, o2, {}, ""); failed = true; }
+                    else { failLine("C01:own-form-roundtrip:" + fam(c.name), c.name, docId, mutDesc, in, o1, o2, {}, ""); failed = true; }
                 }
                 TestClient::resetIds();
                 st->phase = PH_RUN3;
@@ -277,11 +323,11 @@ static void explore(const QByteArray &in, const std::string &docId, const std::s
                 if (!o3.isEmpty()) s3 = summarizeXml(o3, ctxNs);
                 st->counters[C_OUT_CHECKED]++;
                 if (o3.isEmpty() || !s3.wellFormed) {
-                    failLine(o3.isEmpty() ? "C02:not-fixpoint:" + c.name : "C02:output-not-wellformed:" + c.name, c.name, docId, mutDesc, in, o1, o2, o3, "o3");
+                    failLine(o3.isEmpty() ? "C02:not-fixpoint:" + fam(c.name) : "C02:output-not-wellformed:" + fam(c.name), c.name, docId, mutDesc, in, o1, o2, o3, "o3");
                     failed = true;
                 } else if (s2.ordered != s3.ordered) {
                     if (s2.sorted == s3.sorted) st->counters[C_FIX_ORDER_ONLY]++;
-                    else { failLine("C02:not-fixpoint:" + c.name, c.name, docId, mutDesc, in, o1, o2, o3, ""); failed = true; }
+                    else { failLine("C02:not-fixpoint:" + fam(c.name), c.name, docId, mutDesc, in, o1, o2, o3, ""); failed = true; }
                 } else if (o2.size() < 20000 && s2.maxDepth < 200) {
                     // cross-check the hashed comparison with the declaration-level canonical form shared with the Lean side
                     st->counters[C_XCHECK]++;
@@ -381,7 +427,7 @@ static void runItem(const Work &w, int itemIdx, int resumeParser, Status *st, in
         if (o0.isEmpty()) return;
         // own outputs carry no namespace of their own when the class relies on its parent's: nothing to feed then unless well-formed
         if (!summarizeXml(o0, QString()).wellFormed) {
-            failLine("C02:output-not-wellformed:" + c.name, c.name, "default-constructed", "", {}, o0, {}, {}, "serialization of a default-constructed object");
+            failLine("C02:output-not-wellformed:" + fam(c.name), c.name, "default-constructed", "", {}, o0, {}, {}, "serialization of a default-constructed object");
             return;
         }
         explore(o0, "default:" + c.name, "", w.parser, -1, st, samplesLeft, "", false);
@@ -418,6 +464,9 @@ int main(int argc, char **argv)
         else if (s == "--list") g_cfg.list = true;
         else if (s == "--show-not-admitted") g_cfg.showNotAdmitted = true;
         else if (s == "--cpu-budget") g_cfg.cpuBudget = atoi(next().c_str());
+        else if (s == "--shrink-key") g_cfg.shrinkKey = next();
+        else if (s == "--shrink-parser") g_cfg.shrinkParser = next();
+        else if (s == "--shrink-xml") g_cfg.shrinkFile = next();
         else if (s == "--single-probe") g_cfg.singleProbe = next();   // <template index>,<shape index>,<size>
     }
     if (g_cfg.workers < 1) g_cfg.workers = 1;
@@ -491,6 +540,8 @@ int main(int argc, char **argv)
     pool.workDir = root + "/.build/harness/parsers.work";
     pool.tag = "p";
     pool.init();
+    g_failDir = root + "/.build/harness/parsers.fail";
+    ::mkdir(g_failDir.c_str(), 0755);
 
     std::map<std::string, long> failCount;
     long suppressed = 0, crashes = 0, workTotal = 0;
@@ -551,7 +602,7 @@ int main(int argc, char **argv)
                     else { docId = std::string("probe:") + templates()[w->doc].name + ":" + shapeName(w->shape) + "=" + std::to_string(w->size); xml = templates()[w->doc].xml; kind = shapeName(w->shape); }
                     if (w->type == W_PROBE && (w->shape == SH_DEPTH || w->shape == SH_DEPTH_UNIT)) probeCrashed.insert(parser);
                 }
-                std::string key = inLibrary ? "C02:crash:" + parser + ":" + what : "C02:harness:" + std::string(phaseName(r.phase)) + ":" + what;
+                std::string key = inLibrary ? "C02:crash:" + fam(parser) + ":" + what : "C02:harness:" + std::string(phaseName(r.phase)) + ":" + what;
                 // name the input the way the line protocol asks for, then the failure itself
                 printf("I %s %s stage=%s work=%zu kind=%s phase=%s\n", parser.c_str(), docId.c_str(), stageName, k, kind.c_str(), phaseName(r.phase));
                 std::string tail = r.errText;
@@ -560,6 +611,10 @@ int main(int argc, char **argv)
                 auto ep = tail.find("ERROR: ");
                 if (ep == std::string::npos) ep = tail.find("runtime error: ");
                 std::string first = ep == std::string::npos ? "" : tail.substr(ep, tail.find('\n', ep) - ep);
+                if (!lastD.isEmpty() && w && w->type == W_MUT) {
+                    auto df = lastD.split('\t');
+                    if (df.size() == 3 && !df[2].contains("...[")) dumpFailingInput(key, parser, (df[0] + "|" + df[1]).toStdString(), unescLine(df[2]));
+                } else if (w && w->type == W_DOC) dumpFailingInput(key, parser, docId, g_docs[w->doc].xml);
                 if (++failCount[key] <= 3) {
                     printf("O FAIL %s\tparser=%s doc=%s stage=%s work=%zu seed=%llu kind=%s phase=%s exit=%d signal=%d cpu-budget=%ds %s | %s | base-document=%s | exact-input(id,mutation,xml)=%s | child-output=%s\n",
                            key.c_str(), parser.c_str(), docId.c_str(), stageName, k, (unsigned long long)g_cfg.seed, kind.c_str(), phaseName(r.phase), r.exitCode, r.signal,
@@ -578,6 +633,77 @@ int main(int argc, char **argv)
         runStage("sp", { { W_PROBE, t, -1, -1, -1, sh, sz } }, 1);
         for (auto &kv : timings) for (auto &sv : kv.second) printf("X %s size=%d cpu_us=%lld alloc=%lld\n", kv.first.c_str(), sv.first, sv.second, allocs[kv.first][sv.first]);
         vh::finish();
+        return 0;
+    }
+    if (!g_cfg.shrinkKey.empty()) {
+        // delta-debugging: greedily delete elements / attributes / text while the SAME key still fails for the given parser
+        int pidx = -1;
+        for (size_t p = 0; p < g_table.size(); p++) if (g_table[p].name == g_cfg.shrinkParser) pidx = int(p);
+        QFile f(QString::fromStdString(g_cfg.shrinkFile));
+        if (pidx < 0 || !f.open(QIODevice::ReadOnly)) { fprintf(stderr, "--shrink: unknown parser or unreadable file\n"); return 3; }
+        QByteArray xml = f.readAll().trimmed();
+        if (xml.startsWith("<!--")) xml = xml.mid(xml.indexOf("-->") + 3).trimmed();
+        QDomDocument sd;
+        if (!sd.setContent(xml, true)) { fprintf(stderr, "--shrink: input not well-formed\n"); return 3; }
+        Node cur = nodeFromDom(sd.documentElement());
+        long trials = 0;
+        auto fails = [&](const Node &n) {
+            trials++;
+            std::set<std::string> keys;
+            QByteArray doc = render(n);
+            Work w { W_DOC, 0, -1, -1, pidx, 0, 0 };
+            pool.tag = "shrink";
+            auto childFn = [&](int, int, int, Status *st) { int sl = 0; explore(doc, "shrink", "", pidx, -1, st, sl, "", true); };
+            auto onResult = [&](const ChildResult &r, const QByteArray &out) {
+                for (const QByteArray &line : out.split('\n')) if (line.startsWith("O FAIL ")) { int t = line.indexOf('\t'); keys.insert(line.mid(7, t < 0 ? -1 : t - 7).toStdString()); }
+                if (r.crashed) { std::string what = classifyCrash(r); if (r.signal == SIGVTALRM) what = "timeout"; keys.insert("C02:crash:" + fam(g_table[pidx].name) + ":" + what); }
+            };
+            pool.run(1, childFn, onResult, 0);
+            (void)w;
+            return keys.count(g_cfg.shrinkKey) > 0;
+        };
+        if (!fails(cur)) { printf("the given document does not fail with key %s for parser %s\n", g_cfg.shrinkKey.c_str(), g_cfg.shrinkParser.c_str()); return 1; }
+        bool progress = true;
+        while (progress) {
+            progress = false;
+            std::vector<std::vector<int>> elems; std::vector<int> tmp;
+            collectElems(cur, tmp, elems);
+            // 1. delete whole child nodes (elements and text), deepest paths last so big subtrees go first
+            for (size_t e = 0; e < elems.size() && !progress; e++) {
+                Node *n = resolve(cur, elems[e]);
+                for (size_t k = 0; n && k < n->kids.size(); k++) {
+                    Node cand = cur;
+                    Node *cn = resolve(cand, elems[e]);
+                    cn->kids.erase(cn->kids.begin() + k);
+                    if (fails(cand)) { cur = cand; progress = true; break; }
+                }
+            }
+            if (progress) continue;
+            // 2. hoist: replace an element by its single element child
+            // 3. delete attributes, shorten values and text
+            for (size_t e = 0; e < elems.size() && !progress; e++) {
+                Node *n = resolve(cur, elems[e]);
+                for (size_t k = 0; n && k < n->attrs.size() && !progress; k++) {
+                    Node cand = cur; Node *cn = resolve(cand, elems[e]);
+                    cn->attrs.erase(cn->attrs.begin() + k);
+                    if (fails(cand)) { cur = cand; progress = true; break; }
+                    if (n->attrs[k].value.size() > 1) {
+                        Node cand2 = cur; resolve(cand2, elems[e])->attrs[k].value = QStringLiteral("x");
+                        if (fails(cand2)) { cur = cand2; progress = true; break; }
+                    }
+                }
+                for (size_t k = 0; n && k < n->kids.size() && !progress; k++)
+                    if (n->kids[k].isText && n->kids[k].text.size() > 1) {
+                        Node cand = cur; resolve(cand, elems[e])->kids[k].text = QStringLiteral("x");
+                        if (fails(cand)) { cur = cand; progress = true; }
+                    }
+                if (n && (n->wrap > 1 || n->repeat > 2) && !progress) {
+                    Node cand = cur; Node *cn = resolve(cand, elems[e]); cn->wrap /= 2; cn->repeat = std::max(1, cn->repeat / 2);
+                    if (fails(cand)) { cur = cand; progress = true; }
+                }
+            }
+        }
+        printf("shrunk after %ld trials:\n%s\n", trials, render(cur).constData());
         return 0;
     }
     // ---- stage 0: regress + defaults + every document unmutated
@@ -625,8 +751,8 @@ int main(int argc, char **argv)
                 worst[key] = "parser=" + f[0].toStdString() + " template=" + f[1].toStdString() + " dimension=" + shapeName(shape) + (shape == SH_DEPTH_UNIT ? "(self-nested unit)" : "") +
                     " measure=" + measure + " growth-exponent=" + std::to_string(e) + " cost-by-size(cpu-us/allocated-bytes):" + series + " (sanitizer build; template document: " + tplXml(f[1]) + ")";
             };
-            if (expoA > 1.5 && al.rbegin()->second >= (1 << 20)) report("C02:superlinear:" + f[0].toStdString() + ":" + shapeName(shape), expoA, "allocated-bytes");
-            else if (expoT > 1.8 && hi.second >= 1000000) report("C02:superlinear-cpu:" + f[0].toStdString() + ":" + shapeName(shape), expoT, "cpu-time");
+            if (expoA > 1.5 && al.rbegin()->second >= (1 << 20)) report("C02:superlinear:" + fam(f[0].toStdString()) + ":" + shapeName(shape), expoA, "allocated-bytes");
+            else if (expoT > 1.8 && hi.second >= 1000000) report("C02:superlinear-cpu:" + fam(f[0].toStdString()) + ":" + shapeName(shape), expoT, "cpu-time");
             else if (expoT > 1.6 && hi.second >= 50000) { vh::stat("cpu_superlinear_suspects"); if (xLeft > 0) { xLeft--; printf("X cpu-time suspect (not reported): %s %s %s exponent %.2f:%s\n", f[0].constData(), f[1].constData(), shapeName(shape), expoT, series.c_str()); } }
         }
         for (auto &kv : worst) { printf("O FAIL %s\t%s\n", kv.first.c_str(), kv.second.c_str()); failCount[kv.first]++; }
@@ -648,7 +774,7 @@ int main(int argc, char **argv)
                 bool any = false;
                 for (int sh : { SH_DEPTH, SH_DEPTH_UNIT }) any |= timings.count(g_table[p].name + "\t" + templates()[t].name + "\t" + std::to_string(sh)) > 0;
                 if (!any) continue;
-                if (slow.count(g_table[p].name) || probeCrashed.count(g_table[p].name)) { skippedSlow++; continue; }
+                if (slow.count(fam(g_table[p].name)) || probeCrashed.count(g_table[p].name)) { skippedSlow++; continue; }
                 work.push_back({ W_PROBE, int(t), -1, -1, int(p), SH_DEPTH, g_cfg.depth });
                 work.push_back({ W_PROBE, int(t), -1, -1, int(p), SH_DEPTH_UNIT, g_cfg.depth });
             }
@@ -716,6 +842,7 @@ int main(int argc, char **argv)
     vh::stat("ownform_up_to_sibling_order", T[C_OWN_ORDER_ONLY]);
     vh::stat("own_output_not_admitted_by_own_type_check", T[C_OWN_NOT_ADMITTED]);
     vh::stat("default_output_not_admitted", T[C_DEFAULT_NOT_ADMITTED]);
+    vh::stat("container_alters_input_not_in_own_form", T[C_PASSTHROUGH_ALTERS_NONOWN]);
     vh::stat("inputs_not_wellformed", T[C_MUT_NOT_WF]);
     vh::stat("mutation_kind_not_applicable", T[C_MUT_NOT_APPLICABLE]);
     vh::stat("canon_crosschecks", T[C_XCHECK]);
